@@ -19,10 +19,10 @@ type vhOuterT struct {
 	Count  int
 }
 
-func (o vhOuterT) ValMethod() string      { return "VM:" + o.Name }
-func (o *vhOuterT) PtrMethod() string     { return "PM:" + o.Name }
-func (o vhOuterT) WithArg(i int) string   { return "WA" }
-func (o vhInnerT) InnerMethod() string    { return "IM:" + o.Promoted }
+func (o vhOuterT) ValMethod() string    { return "VM:" + o.Name }
+func (o *vhOuterT) PtrMethod() string   { return "PM:" + o.Name }
+func (o vhOuterT) WithArg(i int) string { return "WA" }
+func (o vhInnerT) InnerMethod() string  { return "IM:" + o.Promoted }
 
 // a second type with the same member names in another layout: a cache keyed by name only would mix them up
 type vhOtherT struct {
